@@ -5,16 +5,19 @@ render_project(project, ch, form=None) -> ({path: text}, used)   used = {dimensi
 """
 from __future__ import annotations
 
+import os
+
 from vfw.choose import Chooser
 
 DOCMARKS = {"docmark": "!", "predocmark": ">", "docmark_alt": "*", "predocmark_alt": "|"}
 
 
 class Line:
-    __slots__ = ("text", "pre", "post", "docsty", "label", "nobreak")
+    __slots__ = ("text", "pre", "post", "docsty", "label", "nobreak", "tag")
 
     def __init__(self, text, doc=None, docsty="post", label=None, nobreak=False):
         self.text = text
+        self.tag = None
         self.pre = []
         self.post = []
         self.docsty = docsty
@@ -293,6 +296,9 @@ class Renderer:
             kind = d["d"]
             if kind == "var":
                 b, m, a = self.var_decl(d, allow_stmt=allow_stmt)
+                if is_module:
+                    for ln in m:
+                        ln.tag = "module-decl"      # may be moved into an include file (feature include_split)
                 befores += b
                 mains += m
                 afters += a
@@ -781,24 +787,47 @@ def render_file(f, ch=None, marks=None, features=None, form=None, length_limit=T
     for u in f["units"]:
         lines += r.unit(u)
     form = form or f.get("form", "free")
+    extras = {}
+    if form != "fixed" and r.feat.get("include_split") and r.ch.bool(1, 2):
+        # move a run of whole declarations (with their documentation) of a module into an include file
+        runs, i = [], 0
+        while i < len(lines):
+            if lines[i].tag == "module-decl":
+                j = i
+                while j < len(lines) and lines[j].tag == "module-decl":
+                    j += 1
+                runs.append((i, j))
+                i = j
+            else:
+                i += 1
+        if runs:
+            a, b = r.ch.choice(runs)
+            a = a + r.ch.int(b - a)
+            b = a + 1 + r.ch.int(b - a)
+            inc_name = os.path.basename(f["path"]).rsplit(".", 1)[0] + "_decls.inc"
+            extras[os.path.join(os.path.dirname(f["path"]), inc_name)] = r.layout_free(lines[a:b], None)
+            q = r.ch.choice(["'", '"'])
+            lines[a:b] = [Line(f"{r.kw('include')} {q}{inc_name}{q}", nobreak=True)]
+            r.used.setdefault("include-split", set()).add("yes")
     if form == "fixed":
         text = r.layout_fixed(lines, f.get("doc"), length_limit)
         if not r.fixed_ok:
             r.used["fixed-unbreakable"] = {"yes"}
     else:
         text = r.layout_free(lines, f.get("doc"))
-    return text, {k: sorted(v) for k, v in r.used.items()}
+    return text, {k: sorted(v) for k, v in r.used.items()}, extras
 
 
 def render_project(project, ch=None, marks=None, features=None, form=None, length_limit=True):
     files = {}
     used = {}
     for f in project["files"]:
-        text, u = render_file(f, ch, marks, features, form, length_limit)
+        text, u, extras = render_file(f, ch, marks, features, form, length_limit)
         path = f["path"]
         if form == "fixed" and not path.endswith(".f"):
             path = path.rsplit(".", 1)[0] + ".f"
         files[path] = text
+        files.update(extras)
         for k, v in u.items():
             used.setdefault(k, set()).update(v)
     return files, {k: sorted(v) for k, v in used.items()}
